@@ -187,7 +187,7 @@ def spec_str(s):
 
 
 # ---------------------------------------------------------------------- running
-BAD_TOKENS = re.compile(r"(![a-z]+|STOP|SEGV[-A-Z]*|DIFF|unreadable|rerr\[[^\]]*\]|rother|rfuel|norecycle|refsize=\d+)")
+BAD_TOKENS = re.compile(r"(![a-z]+|\?[a-z]+|STOP|SEGV[-A-Z]*|DIFF|unreadable|rerr\[[^\]]*\]|rother|rfuel|norecycle|refsize=\d+)")
 
 
 def run_lines(exe, lines, env=None, timeout=900):
@@ -223,7 +223,10 @@ def classify(tok):
 def judge(ctx, stream, line, impl, model, flavour):
     """oracle on the implementation's line first, then correspondence"""
     toks = BAD_TOKENS.findall(impl)
-    toks = [t for t in toks if not t.startswith("refsize")] or toks
+    if toks and all(t.startswith("refsize") for t in toks):
+        ctx.broken_tie("harness:reference-size", "reference size changed between passes: %s :: %s" % (line[:200], impl[:200]))
+        return False
+    toks = [t for t in toks if not t.startswith("refsize")]
     if toks:
         ctx.violation("%s [%s build]: %s on history: %s" % (classify(toks[0]), flavour, impl[:200], line[:300]),
                       {"lines": [line], "impl": impl, "model": model, "flavour": flavour, "stream": stream},
@@ -249,11 +252,11 @@ def run_stream(ctx, stream, lines, drv, exes, asan_every):
             exp.append(None)
             continue
         body, _, tail = ml[i].partition(" | ")
-        m = re.search(r"cb=(\d+) hz=(\d+) bad=(\d+)", tail)
+        m = re.search(r"ok=(\d) cb=(\d+) hz=(\d+) bad=(\d+)", tail)
         if not m:
             ctx.broken_tie("model-driver", "unparsable model line: " + ml[i][:100])
             continue
-        if int(m.group(1)) or int(m.group(2)):
+        if m.group(1) != "1":
             dropped += 1            # caller misuse / hazard: outside the theorem, not run
             continue
         keep.append(l)
@@ -422,7 +425,7 @@ def run(ctx):
             hz.append(("zero-size-reuse-overflow", "hist tjx ; J 1 %d %s ; Z 0 ; J 1 %d %s" % (big[1], spec_str(big[0]), big[1], spec_str(big[0]))))
         for sig, l in hz:
             ml = model_lines(ctx, drv, [l])
-            predicted = bool(ml and re.search(r"hz=[1-9]", ml[0]) and re.search(r"bad=[1-9]", ml[0]))
+            predicted = bool(ml and re.search(r"ok=0 cb=0 hz=[1-9]", ml[0]) and re.search(r"bad=[1-9]", ml[0]))
             rc, o, err = finding_run(ctx, exes["simd"], l)
             rca, oa, erra = finding_run(ctx, exes["asan"], l, env=asan_env)
             hit = rc != 0 or bool(BAD_TOKENS.search(o.replace("norecycle", "")))
